@@ -19,13 +19,16 @@ from ..absint import eval_term
 from ..facts import AnalysisError
 from ..sym import enum_members
 from ..terms import const, contains, show, strip_sites, subterms
-from ..util import InlineOnly, NoInline, P, Scan, calls_to, engine, loc, param_at
+from ..util import InlineOnly, NoInline, P, Scan, calls_to, engine, loc, param_at, unwrap_iter
+from .derived import cache_coherence
 
 EG = "service.SimpleEventgroup"
 SVC = "service.SimpleService"
 
 
 def check(run, prog, tier):
+    # "the endpoints subscribed at that time" / "the current value": no stale copies
+    cache_coherence(run, prog, "V5", ['service.SimpleEventgroup'])
     run.explanation = (
         "Notification contents are a constructor field table inside _notify_single (evaluated on boundary event "
         "ids for the method id); membership of a round is decided by where the subscriber set is read relative to "
@@ -96,7 +99,7 @@ def check(run, prog, tier):
             d = dict(n.result[2])
             ev_elem = None
             for s_ in subterms(d.get("method_id", const(0))):
-                if s_[0] == "elem" and s_[1] == events:
+                if s_[0] == "elem" and unwrap_iter(s_[1]) == events:
                     ev_elem = s_
             if ev_elem is None:
                 probs.setdefault("V1:method-id", f"method id {show(d.get('method_id'))[:60]} does not depend on the event id")
@@ -140,7 +143,7 @@ def check(run, prog, tier):
     for key in ("V1:method-id", "V1:service_id", "V1:client_id", "V1:message_type", "V1:interface_version", "V1:payload", "V1:session_id",
                 "V1:extra-fields", "V1:one-datagram-per-destination", "V1:destination", "V1:all-events-in-the-datagram", "V1:nothing-to-send"):
         run.ob("V1", f"{ns.qual}:{key[3:]}", key not in probs, loc(ns), probs.get(key, "holds on every enumerated path (0, 1 and 2 events)"))
-    it_ok = any(s_[0] == "elem" and s_[1] == events for p in paths for e in p.events if e.kind == "call" and e.result is not None
+    it_ok = any(s_[0] == "elem" and unwrap_iter(s_[1]) == events for p in paths for e in p.events if e.kind == "call" and e.result is not None
                 for s_ in subterms(e.result))
     run.ob("V1", f"{ns.qual}:iterates-requested-events", it_ok, loc(ns), "one notification per requested event")
 
